@@ -394,10 +394,19 @@ func (e *Engine) Discharge(results []*FuncResult, so SolveOpts) {
 	// phase 2: everything not decided as expected is retried standalone on the portfolio
 	var retry []*Obl
 	for _, fr := range results {
+		// canaries guard against vacuity per function and kind: one satisfiable instance is enough, so the unsat ones
+		// are re-checked standalone (the incremental context contains asserted goals) only if none is satisfiable yet
+		canaryOK := map[string]bool{}
+		canaryRetried := map[string]int{}
+		for _, o := range fr.Obls {
+			if o.Canary && o.Status != "unsat" {
+				canaryOK[o.Kind] = true
+			}
+		}
 		for _, o := range fr.Obls {
 			if o.Canary {
-				// a canary that is unsat incrementally is re-checked standalone (the incremental context contains asserted goals)
-				if o.Status == "unsat" {
+				if o.Status == "unsat" && !canaryOK[o.Kind] && canaryRetried[o.Kind] < 4 {
+					canaryRetried[o.Kind]++
 					retry = append(retry, o)
 				}
 				continue
